@@ -1,49 +1,74 @@
 """C08 — fixed seed gives bit-identical results across runs and interpreter sessions."""
 from __future__ import annotations
 
+import copy
 import itertools
 import json
 import os
+import re
 import subprocess
 import sys
+import threading
+import time
 from concurrent.futures import ThreadPoolExecutor
 from pathlib import Path
 
 import numpy as np
 
 import common
+import mkdata
 import pipeline as P
 import c08_child
 
 RULE = (
-    "case = (table seed, analysis seed, folds, worker count, format); the complete analysis (read_pin, _split, brew "
-    "with the default Percolator model, read_fasta, assign_confidence with protein level on a target-only FASTA) "
+    "pipeline case = (table seed, analysis seed, folds, worker count, format, roll-up level columns, 1-2 collections, "
+    "protein level with a target-only FASTA and - in sampled cases - with a FASTA that holds decoys, with coarsely "
+    "rounded (tied) scores, the fed-back models as an ensemble, the command line entry point); the complete analysis "
+    "(read_pin, _split, brew with the default Percolator model, read_fasta, assign_confidence) "
     "is run twice in-process with different global numpy RNG states and in fresh interpreters under several "
-    "PYTHONHASHSEED values and worker counts, and SHA-256 digests of fold assignments, coefficients, scores and "
-    "every result file are compared; the returned models are fed back in every permutation (folds <= 3) or sampled "
-    "permutations; distinct = distinct (case, comparison kind); non-trivial = every case"
+    "PYTHONHASHSEED values and worker counts, and SHA-256 digests of fold assignments, coefficients, scores, generator "
+    "states of the returned models and every result file are compared; the returned models are fed back in every "
+    "permutation (folds <= 3) or sampled permutations. "
+    "rng case = (1-2 small tables, folds, subset_max_train, int seed or Generator, worker count, per-fold delays): real "
+    "brew() with a Model subclass that records the state of its generator around fit; compared (a) with a second run "
+    "under another worker count / arrival order (spec: same seed, same draws) and (b) with the draw plan of the Lean "
+    "model (`determplan`) replayed on an independent numpy Generator (fold sizes read from a separate _split call). "
+    "fasta case = small FASTA (shared / nested / decoy proteins): key order of the real Proteins maps vs the Lean "
+    "`determloop` applied to the enumerations of the digested peptide sets observed in this interpreter. "
+    "distinct = distinct (case, comparison kind); non-trivial = every case"
 )
 HERE = Path(__file__).resolve().parent
+DIMS = ("level_cols", "ncoll", "fasta_decoys", "ties", "ensemble", "cli")
 
 
 def child(params, hashseed):
     env = dict(os.environ, PYTHONHASHSEED=str(hashseed))
     r = subprocess.run([sys.executable, "-W", "ignore", str(HERE / "c08_child.py"), json.dumps(params)],
-                       capture_output=True, text=True, env=env, timeout=900)
+                       capture_output=True, text=True, env=env, timeout=900, cwd=str(HERE))
     for line in r.stdout.splitlines():
         if line.startswith("DIGEST "):
             return json.loads(line[7:])
-    raise RuntimeError(f"child failed rc={r.returncode}: {r.stderr[-800:]}")
+    last = (r.stderr.strip().splitlines() or ["?"])[-1]
+    raise RuntimeError(f"child failed rc={r.returncode}: {last[:200]} || params={json.dumps(params)} hashseed={hashseed} "
+                       f"|| {r.stderr[-1500:]}")
 
 
 def diff(a, b):
     return sorted(k for k in set(a) | set(b) if a.get(k) != b.get(k))
 
 
-def gen_case(rng):
-    return dict(data_seed=rng.randrange(1 << 30), seed=rng.randrange(10000), n_spectra=rng.choice([150, 250]),
+def gen_case(rng, dims=None):
+    """`dims`: which of the optional dimensions this case switches on (None: sampled)"""
+    if dims is None:
+        dims = [d for d in DIMS if rng.random() < 0.5]
+    levels = [c for c in ("ModifiedPeptide", "Precursor", "PeptideGroup") if rng.random() < 0.6] or ["Precursor"]
+    return dict(kind="pipeline", data_seed=rng.randrange(1 << 30), seed=rng.randrange(10000),
+                n_spectra=rng.choice([150, 250]),
                 n_pep=rng.choice([24, 40]), folds=rng.choice([2, 3, 3, 4]), workers=1,
-                fmt=rng.choice(["pin", "parquet"]), peps=rng.choice(["qvality", "qvality", "kde_nnls"]))
+                fmt=rng.choice(["pin", "parquet"]), peps=rng.choice(["qvality", "qvality", "kde_nnls"]),
+                level_cols=levels if "level_cols" in dims else [], ncoll=2 if "ncoll" in dims else 1,
+                fasta_decoys="fasta_decoys" in dims, ties="ties" in dims, ensemble="ensemble" in dims,
+                cli="cli" in dims)
 
 
 def run_case(chk, case, tier):
@@ -51,6 +76,20 @@ def run_case(chk, case, tier):
         chk.spec_violation("nondeterminism:" + kind + ":" + (d[0].split(":")[0] if d else ""),
                            dict(case=case, clause=f"{what}: artefacts differ: {d}"))
 
+    for d in DIMS:
+        chk.count("dim:" + d, bool(case.get(d)) if d != "ncoll" else case.get("ncoll", 1))
+    # (c) fresh interpreters: hash seeds x worker counts — started first (they need nothing but the case), so that
+    # their start-up time overlaps with the in-process runs; their digests are compared last, as before
+    combos = [(0, 1), (2, 4), (3, 2)] if tier == "quick" else [(0, 1), (1, 4), (2, 16), (3, 2), (12345, 8), (7, 1)]
+    ex = ThreadPoolExecutor(max_workers=len(combos))
+    futs = [ex.submit(child, dict(case, workers=w, global_noise=h), h) for h, w in combos]
+    try:
+        _run_case_body(chk, case, tier, report, combos, futs)
+    finally:
+        ex.shutdown(wait=True)
+
+
+def _run_case_body(chk, case, tier, report, combos, futs):
     with P.workdir() as wd:
         # (a) twice in the same process, with different global numpy RNG state
         try:
@@ -63,10 +102,23 @@ def run_case(chk, case, tier):
             return
         chk.case(None, (case["data_seed"], "same-process"), sample=dict(case=case, digest=d1))
         chk.count("kind", "same-process")
+        chk.count("result files per run", len([k for k in d1 if k.startswith(("file", "cli:"))]))
+        for k_, v_ in d1.items():
+            if k_.startswith("n_decoy_proteins:"):
+                chk.count("protein pairs won by the decoy (per proteins file)", "0" if v_ == 0 else "1-2" if v_ < 3 else "3+")
         dd = diff(d1, d2)
         if dd:
             report("same-process", "two runs in one process (global numpy state differs)", dd)
             return
+        if case.get("ties"):
+            # is the tie-breaking path live?  the same tied scores under another seed (tallied, not required:
+            # whether the shuffle can change a protein's best peptide depends on the table)
+            other = {}
+            c08_child.extra_run(other, "file_ties", dict(case, seed=case["seed"] + 1), keep["paths"],
+                                c08_child.tied_scores(keep["scores"]), keep["descs"], wd / "ties_other_seed",
+                                keep["proteins"])
+            chk.count("tied scores: another seed changes a result file",
+                      "refused" if "file_ties:raised" in other else any(other[k] != d1.get(k) for k in other))
         # (b) feeding the models back in any order (only meaningful when every fold model was trained: brew
         # refuses untrained models with an explicit error, and then falls back to the best feature anyway)
         perms = list(itertools.permutations(range(case["folds"])))
@@ -75,10 +127,12 @@ def run_case(chk, case, tier):
             perms = []
         if len(perms) > 6:
             perms = [perms[0]] + chk.rng.sample(perms[1:], 3 if tier == "quick" else 8)
+        ens_ref = None
         for k, perm in enumerate(perms if tier != "quick" else perms[:4]):
             try:
-                d3, _ = c08_child.analysis(dict(case, global_noise=3), wd / f"p{k}", models_in=list(models),
-                                           model_order=list(perm))
+                # the extra protein-level runs do not depend on the model order beyond `scores`, which is compared
+                d3, _ = c08_child.analysis(dict(case, global_noise=3, fasta_decoys=False, ties=False), wd / f"p{k}",
+                                           models_in=list(models), model_order=list(perm))
             except Exception as e:
                 chk.spec_violation("model-feedback-failed", dict(case=case, perm=list(perm),
                                                                  clause=f"{type(e).__name__}: {e}"[:300]))
@@ -90,17 +144,23 @@ def run_case(chk, case, tier):
             if bad:
                 report("model-order", f"models fed back in order {perm}", bad)
                 return
-        # (c) fresh interpreters: hash seeds x worker counts
-        combos = [(0, 1), (2, 4), (3, 2)] if tier == "quick" else [(0, 1), (1, 4), (2, 16), (3, 2), (12345, 8), (7, 1)]
-        with ThreadPoolExecutor(max_workers=len(combos)) as ex:
-            futs = [ex.submit(child, dict(case, workers=w, global_noise=h), h) for h, w in combos]
-            res = []
-            for f in futs:
-                try:
-                    res.append(f.result())
-                except Exception as e:
-                    chk.reject("child-failed:" + str(e)[:80])
+            if case.get("ensemble"):
+                chk.count("kind", "model-permutation-ensemble")
+                if ens_ref is None:
+                    ens_ref = d3.get("scores_ensemble")
+                elif d3.get("scores_ensemble") != ens_ref:
+                    report("model-order", f"ensemble of the models fed back in order {perm} vs order {perms[0]}",
+                           ["scores_ensemble"])
                     return
+        # (c) fresh interpreters (started above)
+        res = []
+        for f in futs:
+            try:
+                res.append(f.result())
+            except Exception as e:
+                chk.reject("child-failed:" + str(e)[:160])
+                chk.extra.setdefault("child_failures", []).append(str(e)[:4000])
+                return
         for (h, w), dg in zip(combos, res):
             chk.case(None, (case["data_seed"], "fresh", h, w))
             chk.count("kind", f"fresh-interpreter hashseed={h} workers={w}")
@@ -110,9 +170,217 @@ def run_case(chk, case, tier):
                 return
 
 
+# ----------------------------------------------------------------------------------------------------------------
+# generator threading: real brew() with a state-recording Model vs the Lean draw plan replayed on numpy
+# ----------------------------------------------------------------------------------------------------------------
+SPY = {"log": [], "delay": {}, "lock": threading.Lock()}
+
+
+def gen_state(g):
+    return json.dumps(g.bit_generator.state, sort_keys=True, default=str)
+
+
+def spy_model(seed):
+    import mokapot
+    from sklearn.base import BaseEstimator
+
+    class FirstFeature(BaseEstimator):
+        """learns nothing: the score is the first (informative) feature"""
+
+        def fit(self, X, y):
+            self.fitted_ = True
+            return self
+
+        def decision_function(self, X):
+            return np.asarray(X)[:, 0]
+
+    class SpyModel(mokapot.model.Model):
+        def fit(self, psms):
+            rec = dict(fold=self.fold, rows=len(psms.data), gen=id(self.rng), before=gen_state(self.rng))
+            time.sleep(SPY["delay"].get(self.fold, 0.0))      # decides which worker reaches its draw first
+            try:
+                return super().fit(psms)
+            finally:
+                rec["after"] = gen_state(self.rng)
+                with SPY["lock"]:
+                    SPY["log"].append(rec)
+
+    return SpyModel(FirstFeature(), train_fdr=0.5, max_iter=1, override=True, rng=seed + 12345)
+
+
+def gen_rng_case(rng):
+    ncoll = rng.choice([1, 1, 2])
+    folds = rng.choice([2, 3, 3, 4])
+    sizes = [rng.randrange(50, 110) for _ in range(ncoll)]
+    order = list(range(1, folds + 1))
+    rng.shuffle(order)
+    return dict(kind="rng", data_seed=rng.randrange(1 << 30), seed=rng.randrange(1 << 31), ncoll=ncoll, folds=folds,
+                n_spectra=sizes, subset=rng.choice([None, None, "small", "mid", "large"]),
+                form=rng.choice(["int", "generator"]), workers=rng.choice([2, 3, 4, 8]),
+                arrival=order)
+
+
+def apply_draw(g, d):
+    if d[0] == "sh":
+        g.shuffle(np.arange(int(d[1])))
+    elif d[0] == "ch":
+        g.choice(list(range(int(d[1]))), int(d[2]), replace=False)
+    elif d[0] == "pm":
+        g.permutation(np.arange(int(d[1])))
+    else:
+        raise ValueError(d)
+
+
+def run_rng_case(chk, case):
+    import mokapot
+    import random as pyrandom
+
+    r = pyrandom.Random(case["data_seed"])
+    chk.count("rng: collections", case["ncoll"])
+    chk.count("rng: folds", case["folds"])
+    chk.count("rng: subset_max_train", case["subset"] or "none")
+    chk.count("rng: form", case["form"])
+    chk.count("rng: workers", case["workers"])
+    with P.workdir() as wd:
+        paths = []
+        for c in range(case["ncoll"]):
+            df = mkdata.make_psm_table(r, n_spectra=case["n_spectra"][c], max_per_spectrum=2, n_feat=2, label_enc="pm1",
+                                       optional=("ExpMass",), signal=5.0, rowid=False)
+            paths.append(mkdata.write_table(df, wd / f"r{c}.pin"))
+        # fold sizes: they do not depend on the generator (C02 checks the split itself)
+        fold_sizes = [[len(x) for x in mkdata.read_dataset(p)._split(case["folds"], np.random.default_rng(0))]
+                      for p in paths]
+        total_train = min(sum(sum(fs) - fs[j] for fs in fold_sizes) for j in range(case["folds"]))
+        subset = {None: None, "small": max(2, total_train // 4), "mid": max(2, total_train // 2),
+                  "large": total_train + 5}[case["subset"]]
+
+        def run(workers, delays):
+            SPY["log"] = []
+            SPY["delay"] = delays
+            g = np.random.default_rng(case["seed"]) if case["form"] == "generator" else case["seed"]
+            dsets = [mkdata.read_dataset(p) for p in paths]
+            _, models, scores, _ = mokapot.brew(dsets if case["ncoll"] > 1 else dsets[0], spy_model(case["seed"]),
+                                                test_fdr=0.5, folds=case["folds"], max_workers=workers, rng=g,
+                                                subset_max_train=subset)
+            log = sorted(SPY["log"], key=lambda x: x["fold"])
+            return dict(log=log, caller=gen_state(g) if case["form"] == "generator" else None, caller_id=id(g),
+                        models=[gen_state(m.rng) for m in models], model_ids=[id(m.rng) for m in models],
+                        scores=[np.asarray(s, dtype=float).tobytes() for s in scores])
+
+        plan = common.dec(common.driver_batch([common.req("determplan", False, subset, fold_sizes)])[0])
+        real_err = None
+        try:
+            base = run(1, {})
+            delays = {f: 0.015 * k for k, f in enumerate(case["arrival"])}
+            var = run(case["workers"], delays)
+        except Exception as e:
+            real_err = e
+        chk.case(None, ("rng", case["data_seed"], case["seed"]), sample=dict(case=case, plan=plan))
+        if plan == "reject-choice" or real_err is not None:
+            if plan == "reject-choice" and isinstance(real_err, ValueError):
+                chk.reject("subset_max_train-larger-than-a-file:ValueError")     # numpy refuses the sample
+            elif plan == "reject-choice":
+                chk.corr_break("determplan", dict(case=case, impl=repr(real_err), model=plan))
+            else:
+                chk.reject("rng-case-failed:" + type(real_err).__name__ + ":" + str(real_err)[:60])
+            return
+        # (a) spec, stated directly: same seed => same draws, whatever the worker count and arrival order
+        view = lambda o: ([(x["fold"], x["rows"], x["before"], x["after"]) for x in o["log"]], o["caller"],  # noqa: E731
+                          o["models"], o["scores"])
+        if view(base) != view(var):
+            what = [n for n, a, b in zip(("per-fold generator states", "caller's generator", "returned models' generators",
+                                          "scores"), view(base), view(var)) if a != b]
+            chk.spec_violation("nondeterminism:rng-threading",
+                               dict(case=case, clause=f"workers=1 vs workers={case['workers']} with arrival order "
+                                    f"{case['arrival']}: {what} differ"))
+            return
+        # (b) the model's draw plan, replayed on an independent generator
+        main, fits = plan
+        o = np.random.default_rng(case["seed"])
+        for d in main:
+            apply_draw(o, d)
+        s1 = gen_state(o)
+        exp = []
+        for reqs in fits:
+            oj = copy.deepcopy(o)
+            for d in reqs:
+                apply_draw(oj, d)
+            exp.append((int(reqs[0][1]), s1, gen_state(oj)))
+        for obs in (base, var):
+            got = [(x["rows"], x["before"], x["after"]) for x in obs["log"]]
+            ids = [x["gen"] for x in obs["log"]]
+            problems = []
+            if got != exp:
+                problems.append("per-fold (rows, state before fit, state after fit)")
+            if obs["caller"] is not None and obs["caller"] != s1:
+                problems.append("caller's generator after brew")
+            if obs["models"] != [e[2] for e in exp]:
+                problems.append("generators of the returned models")
+            if len(set(ids)) != len(ids) or (obs["caller"] is not None and obs["caller_id"] in ids):
+                problems.append("fold models share a generator object")
+            if problems:
+                chk.corr_break("determplan", dict(case=case, impl=dict(rows=[g[0] for g in got], problems=problems),
+                                                  model=plan))
+                return
+
+
+# ----------------------------------------------------------------------------------------------------------------
+# key order of the Proteins maps: real read_fasta vs `determloop` on the observed set enumerations
+# ----------------------------------------------------------------------------------------------------------------
+def gen_fasta_case(rng):
+    n_pep = rng.randrange(5, 13)
+    n_prot = rng.randrange(2, 7)
+    prots = []
+    for j in range(n_prot):
+        k = rng.randrange(1, min(5, n_pep) + 1)
+        prots.append(sorted(rng.sample(range(n_pep), k)))
+    if n_prot > 2 and rng.random() < 0.6:        # a protein whose peptides are a subset of another's
+        prots[-1] = prots[0][: max(1, len(prots[0]) - 1)]
+    return dict(kind="fasta", prots=prots, decoys=rng.random() < 0.4, missed=rng.choice([0, 0, 1]))
+
+
+def run_fasta_case(chk, case):
+    import mokapot
+
+    chk.count("fasta: decoys", case["decoys"])
+    chk.count("fasta: missed cleavages", case["missed"])
+    entries = [(f"sp|P{j}|x", "".join(mkdata.pep_letters(p) + "K" for p in peps)) for j, peps in enumerate(case["prots"])]
+    if case["decoys"]:
+        entries += [(f"decoy_sp|P{j}|x", "".join(mkdata.pep_letters(p)[::-1] + "K" for p in peps))
+                    for j, peps in enumerate(case["prots"])]
+    with P.workdir() as wd:
+        path = wd / "k.fasta"
+        path.write_text("".join(f">{n} test\n{s}\n" for n, s in entries))
+        loops = []
+        for n, s in entries:
+            enum = list(mokapot.digest(s, enzyme_regex=re.compile("[KR]"), missed_cleavages=case["missed"], min_length=4))
+            if enum:
+                loops.append([enum, n])
+        try:
+            prot = mokapot.read_fasta(path, missed_cleavages=case["missed"], min_length=4)
+        except Exception as e:
+            chk.reject("read_fasta:" + type(e).__name__)
+            return
+    model = common.dec(common.driver_batch([common.req("determloop", [], loops)])[0])
+    keys = [common.a_str(e[0]) for e in model]
+    chk.case(None, ("fasta", json.dumps(case, sort_keys=True)), sample=dict(case=case, key_order=keys[:6]))
+    chk.count("fasta: unique / shared keys", f"{len(prot.peptide_map)}/{len(prot.shared_peptides)}")
+    uniq, shared = list(prot.peptide_map), list(prot.shared_peptides)
+    if set(uniq) | set(shared) != set(keys) or set(uniq) & set(shared):
+        chk.corr_break("determloop", dict(case=case, impl=dict(unique=uniq, shared=shared), model=keys,
+                                          clause="key SETS differ"))
+    elif uniq != [k for k in keys if k in prot.peptide_map] or shared != [k for k in keys if k in prot.shared_peptides]:
+        chk.corr_break("determloop", dict(case=case, impl=dict(unique=uniq, shared=shared), model=keys,
+                                          clause="key ORDER is not the enumeration order of the peptide sets"))
+
+
 def search(chk):
     for _ in range(3 * chk.budget_mult):
         run_case(chk, gen_case(chk.rng), "thorough")
+        if chk.spec_violations:
+            return
+    for _ in range(6 * chk.budget_mult):
+        run_rng_case(chk, gen_rng_case(chk.rng))
         if chk.spec_violations:
             return
 
@@ -122,15 +390,32 @@ def main(chk, args):
     if not build.driver_ok:
         chk.finish(build, RULE)
     n = 2 if chk.tier == "quick" else 12
-    for _ in range(n):
-        run_case(chk, gen_case(chk.rng), chk.tier)
+    # every optional dimension is switched on in at least one case of a run (a random split in the quick tier)
+    dims = list(DIMS)
+    chk.rng.shuffle(dims)
+    forced = [dims[:3], dims[3:]] if chk.tier == "quick" else [None] * n
+    forced += [None] * (n - len(forced))
+    t0 = time.time()
+    for i in range(n):
+        run_case(chk, gen_case(chk.rng, forced[i]), chk.tier)
+    t1 = time.time()
+    for _ in range(8 if chk.tier == "quick" else 60):
+        run_rng_case(chk, gen_rng_case(chk.rng))
+    t2 = time.time()
+    for _ in range(40 if chk.tier == "quick" else 400):
+        run_fasta_case(chk, gen_fasta_case(chk.rng))
+    chk.extra["phase_wall_s"] = dict(pipeline=round(t1 - t0, 1), rng=round(t2 - t1, 1), fasta=round(time.time() - t2, 1))
     lc = common.leanchecker("C08") if chk.tier == "thorough" else None
     chk.assumptions += [
         "PARTIAL: the theorems carry (i) the inventory obligation: every source of nondeterminism found by the AST "
         "walk of /repo/mokapot (global numpy RNG, stdlib random, unseeded DataFrame.sample, hash/id/time/uuid/getpid, "
-        "iteration over sets, unsorted glob) is accounted for by an explicit seeding or by a proved order-invariance, "
-        "and (ii) the order-invariance results; bit-identity itself (numpy/sklearn/BLAS/pandas internals) is "
-        "established by differential execution only",
+        "iteration over sets - also sets passed to or returned by functions of the package -, containers whose order "
+        "was fixed by such an iteration, directory listings, lists appended to by joblib workers) is accounted for by "
+        "an explicit seeding or by a proved order-invariance, (ii) the order-invariance results, (iii) the threading of "
+        "the seeded generator through brew (private copy per fold: no worker schedule reaches a draw); bit-identity "
+        "itself (numpy/sklearn/BLAS/pandas internals) is established by differential execution only",
+        "rng cases: the amount of generator state consumed by shuffle/choice/permutation depends only on the sizes "
+        "(numpy), so the plan can be replayed on arrays of the same length",
     ]
     chk.finish(build, RULE, search=search, lc=lc,
                trusted_extra=["tools/gen_repo.py (AST walk -> Generated/Effects.lean)", "sklearn LinearSVC/GridSearchCV, BLAS"])
@@ -139,11 +424,19 @@ def main(chk, args):
 def replay(chk, path):
     info = json.loads(open(path).read())
     case = info.get("case")
-    if not isinstance(case, dict) or "data_seed" not in case:
+    if not isinstance(case, dict) or "data_seed" not in case and case.get("kind") != "fasta":
         print(json.dumps(info, indent=1)[:3000])
         return 0
     common.build_and_audit("C08")
-    run_case(chk, case, "thorough")
+    kind = case.get("kind", "pipeline")
+    if kind == "rng":
+        run_rng_case(chk, case)
+    elif kind == "fasta":
+        run_fasta_case(chk, case)
+    else:
+        run_case(chk, case, "thorough")
     for sig, i in chk.spec_violations:
         print("REPRODUCED", sig, i.get("clause"))
-    return 1 if chk.spec_violations else 0
+    for op, i in chk.corr_breaks:
+        print("REPRODUCED correspondence break", op, i.get("impl"))
+    return 1 if chk.spec_violations or chk.corr_breaks else 0
